@@ -4,7 +4,8 @@ against the real parser).
 
 flags (structure of the layout, enumerated): per eligible line  'join' (appended to the previous simple
 statement with '; '), 'oneline' (single simple body statement moved onto its header line),
-'break' (a parenthesised tuple expression broken after the opening bracket).
+'break' (a parenthesised tuple expression broken after the opening bracket), 'cbreak' (broken after the first comma
+inside a bracket).
 nums (symbolic in the harness): blank/comment lines before each physical line (0..2), indentation width
 (1..8), continuation indent of broken brackets (0..8), extra spaces after 'join'/'oneline' separators (0..2).
 """
@@ -13,6 +14,8 @@ import re
 
 # a bracket after which the line may be broken: a parenthesised value or the arguments of a call
 BREAK = re.compile(r'(?:=\s|print|\bin\s|if\s|while\s)\((?=[\w(])')
+# a comma inside a bracket after which the line may be broken as well (the rest of the value moves down)
+CBREAK = re.compile(r'(?<=[\w)\]]),\s(?=[\w(\[])')
 HEADER = re.compile(r'^\s*(if|elif|else|for|while|try|except|finally|with|def|class|async)\b.*:\s*$')
 
 
@@ -46,9 +49,23 @@ def eligible(lines):
             if ok:
                 out.append(('oneline', i))
     for i, ln in enumerate(lines):
-        if BREAK.search(ln) and not ln.lstrip().startswith(('def ', 'class ', '@', 'with ')):
+        if ln.lstrip().startswith(('def ', 'class ', '@', 'with ', 'async ')):
+            continue
+        if BREAK.search(ln):
             out.append(('break', i))
+        m = cbreak_at(ln.strip())
+        if m is not None:
+            out.append(('cbreak', i))
     return out
+
+
+def cbreak_at(body):
+    """offset after the first comma that sits inside a bracket opened on this line, or None"""
+    for m in CBREAK.finditer(body):
+        head = body[:m.start()]
+        if head.count('(') + head.count('[') > head.count(')') + head.count(']'):
+            return m.end()
+    return None
 
 
 def apply(lines, on, nums):
@@ -62,10 +79,17 @@ def apply(lines, on, nums):
         body = ln.strip()
         lvl = indent_of(ln)
         brk = None
+        pts = []
         if ('break', i) in on:
-            m = BREAK.search(body)
-            k = m.end()
-            body, brk = body[:k], body[k:]
+            pts.append(BREAK.search(body).end())
+        if ('cbreak', i) in on:
+            pts.append(cbreak_at(body))
+        pts = sorted(set(pts))
+        if pts:
+            segs = [body[a:b] for a, b in zip([0] + pts, pts + [len(body)])]
+            body, brk = segs[0], [x for x in segs[1:] if x != '']
+            if not brk:
+                brk = None
         if ('oneline', i) in on:
             gap = ' ' * (1 + nums.get(('gap', i), 0))
             phys[-1][1] += gap + body
@@ -88,8 +112,8 @@ def apply(lines, on, nums):
             out.append('# c' if _ % 2 else '')
         # a one-lined header keeps its own indent level
         out.append(' ' * (W * lvl) + body)
-        if brk is not None:
-            out.append(' ' * cont + brk)
+        for seg in brk or ():
+            out.append(' ' * cont + seg)
         k += 1
     return '\n'.join(out) + '\n', len(phys)
 
@@ -109,7 +133,7 @@ NUM_RANGES = {'width': (1, 8), 'cont': (0, 8)}
 def num_keys(lines, on):
     text, nphys = apply(lines, on, {})
     keys = [('blank', k) for k in range(nphys)] + ['width']
-    if any(f[0] == 'break' for f in on):
+    if any(f[0] in ('break', 'cbreak') for f in on):
         keys.append('cont')
     keys += [('gap', f[1]) for f in sorted(on) if f[0] in ('join', 'oneline')]
     return keys
